@@ -404,6 +404,15 @@ def check(case):
                         if not close(gs[..., i], want, rtol=1e-10, atol=atol):
                             out.fail('simple-mean@%s' % ('2d' if spec.ndim > 1 else '1d'),
                                      'bin %d got %s want %s' % (i, gs[..., i], want))
+                # widths handed to the histogram binner describe the bins in the output; the bins themselves stay the
+                # mid-point ones, so the values do not depend on them
+                out.applies('simple-widths-given')
+                sbw = cut(out, 'simple-construct', SimpleBinner, stc.copy(), stw.copy())
+                rsw = cut(out, 'simple-bindown', sbw.bindown, wn[pn].copy(), spec[..., pn].copy())
+                gsw = np.asarray(rsw[1], dtype=float)
+                if gsw.shape != gs.shape or not np.array_equal(np.isnan(gsw), np.isnan(gs)) or \
+                        not close(np.nan_to_num(gsw), np.nan_to_num(gs), rtol=1e-12, atol=atol):
+                    out.fail('simple-widths-given', 'explicit target widths changed the histogram means: %s vs %s' % (gsw[..., :4], gs[..., :4]))
             except CutError:
                 pass
         else:
